@@ -161,6 +161,17 @@ class Check:
 
     # ---- finishing -----------------------------------------------------------
     def finish(self):
+        try:
+            from . import symx
+            if symx.CC["agree"] or symx.CC["cvc5_unknown"] or symx.CC["disagree"]:
+                self.crosscheck.append({"what": "every z3 `unsat` re-asked to cvc5 1.0.3", "agree": symx.CC["agree"],
+                                        "cvc5_unknown_or_timeout": symx.CC["cvc5_unknown"],
+                                        "disagree": len(symx.CC["disagree"]), "seconds": round(symx.CC["seconds"], 1)})
+            if symx.CC["disagree"]:
+                self.crashed = "solver disagreement: z3 says unsat, cvc5 says sat on %d queries; first: %s" % (
+                    len(symx.CC["disagree"]), symx.CC["disagree"][0][:600])
+        except ImportError:
+            pass
         kf_all = _load_known()
         kf = [k for k in kf_all if k.get("property") == self.prop and k.get("status") == "open"]
         lines = []
